@@ -190,6 +190,46 @@ Theorem C15_registry : forall ops n,
 Proof. exact registry_laws. Qed.
 Print Assumptions C15_registry.
 
+(* ---- task ids (Part 1i): RunTask.id = (counter + 1) mod 2^32, one counter per process ----
+   For every number of posters, every program, every value c0 of the counter when the
+   scheduler comes into use - no range restriction - and every schedule in which each poster
+   may run AllocId at any moment before its send: *)
+
+(* Forgetting the ids gives a run of the scheduler system of Part 1 with the same closures
+   executed in the same order; the task the consumer received is the task that is executed,
+   with the id its Post allocated - id 0 is an id like any other. *)
+Theorem C15_id_independent : forall progs ws c0 ls, id_independent progs ws c0 ls.
+Proof. exact id_independent_holds. Qed.
+Print Assumptions C15_id_independent.
+
+(* ... hence exactly once, FIFO, panic isolation for every starting value of the counter *)
+Theorem C15_exactly_once_any_counter : forall progs ws c0 ls,
+  let s := i_st (irun (iinit progs ws c0) ls) in
+  exactly_once_safe progs s /\ exactly_once_quiescent progs s /\ stopped_quiescent s /\ per_poster_fifo progs s /\ panic_isolated s.
+Proof. exact any_counter. Qed.
+Print Assumptions C15_exactly_once_any_counter.
+
+(* The ids are c0+1, c0+2, ... in uint32 arithmetic: after 4294967295 comes 0. *)
+Theorem C15_ids_wrap : forall progs ws c0 ls, ids_wrap progs ws c0 ls.
+Proof. exact ids_wrap_holds. Qed.
+Print Assumptions C15_ids_wrap.
+
+(* ---- shared task lists (Part 2s): the caller's slices, any number of chains started over
+   them (the same slice any number of times), every interleaving of their steps ---- *)
+
+(* Frame: running chains does not change the task lists they were given. *)
+Theorem C15_chain_frame : forall mem ls, sh_mem (shrun mem ls) = mem.
+Proof. exact chain_frame. Qed.
+Print Assumptions C15_chain_frame.
+
+(* Hence each of k chains over one list is a run of the single-chain machine over that list
+   as the caller defined it - a fresh copy would make no difference - and C15_chain_spec,
+   C15_final_once (and with them order, arguments, first-error) hold of it. *)
+Theorem C15_shared_chains : forall mem ls c l cs,
+  nth_error (sh_chains (shrun mem ls)) c = Some (l, cs) -> shared_chain_ok (nth l mem []) cs.
+Proof. exact shared_chains_spec. Qed.
+Print Assumptions C15_shared_chains.
+
 (* ---- non-vacuity and the double-callback witness ---- *)
 
 (* two posters, a panicking closure in the middle, interleaved with the consumer *)
@@ -286,4 +326,39 @@ Proof. vm_compute. repeat split. Qed.
 Example C15_example_registry :
   let m := m_run [MGet 1; MGet 2; MGet 1; MDel 1; MGet 1] in
   m_reg m = [(1, 2); (2, 1)] /\ m_next m = 3.
+Proof. vm_compute. repeat split. Qed.
+
+(* the counter three below the wrap: the third Post gets id 0, and its closure runs like the rest *)
+Example C15_example_id_wrap :
+  let s := irun (iinit [repeat KOk 5] false 4294967293)
+             (repeat (IStep (TPost 0)) 5 ++ repeat (IStep TCons) 5) in
+  i_given s = [((0%nat, 0%nat), 4294967294); ((0%nat, 1%nat), 4294967295); ((0%nat, 2%nat), 0); ((0%nat, 3%nat), 1); ((0%nat, 4%nat), 2)]
+  /\ i_xids s = i_given s /\ i_ctr s = 2
+  /\ exec_ids (i_st s) = [(0, 0); (0, 1); (0, 2); (0, 3); (0, 4)]%nat /\ queue (i_st s) = [].
+Proof. vm_compute. repeat split. Qed.
+
+(* ids need not enter the queue in allocation order (poster 0 allocates first, sends last); a
+   poster blocked on the full queue keeps the id it allocated *)
+Example C15_example_id_order :
+  let s := irun (iinit [[KOk]; [KOk]] false 4294967295) [IAlloc 0; IStep (TPost 1); IStep (TPost 0)] in
+  i_given s = [((0%nat, 0%nat), 0); ((1%nat, 0%nat), 1)] /\ i_qids s = [1; 0]
+  /\ i_xids (irun s [IStep TCons; IStep TCons]) = [((1%nat, 0%nat), 1); ((0%nat, 0%nat), 0)].
+Proof. vm_compute. repeat split. Qed.
+
+Example C15_example_id_blocked :
+  let s := irun (iinit [repeat KOk 1000] false 4294966297) (repeat (IStep (TPost 0)) 1001) in
+  length (queue (i_st s)) = 999%nat /\ i_held s = [(0%nat, 1)] /\ i_ctr s = 1
+  /\ last (i_qids (irun s [IStep TCons; IStep (TPost 0)])) 7 = 1.
+Proof. vm_compute. repeat split. Qed.
+
+(* one task list, three chains over it: two interleaved, the third after both are done *)
+Example C15_example_shared :
+  let s := shrun [ex_chain]
+             [ShStart 0; ShStart 0; ShStep 0 LCons; ShStep 1 LCons; ShStep 1 LCons; ShStep 0 LCons;
+              ShStep 0 LCons; ShStep 1 LCons; ShStep 1 (LFire 1 0); ShStep 0 (LFire 1 0);
+              ShStep 0 LCons; ShStep 0 LCons; ShStep 1 LCons; ShStep 1 LCons;
+              ShStart 0; ShStep 2 LCons; ShStep 2 LCons; ShStep 2 LCons; ShStep 2 (LFire 1 0);
+              ShStep 2 LCons; ShStep 2 LCons] in
+  map (fun lc => clog (snd lc)) (sh_chains s) = [spec ex_chain; spec ex_chain; spec ex_chain]
+  /\ sh_mem s = [ex_chain].
 Proof. vm_compute. repeat split. Qed.
